@@ -37,6 +37,7 @@ def build_py(run, prop=ID):
     build_recv_rx(run, prop, E)
     build_handle_rx(run, prop, E)
     build_threshold_invariant(run, prop, E)
+    build_forward_chain(run, prop, E)
     build_capture_reader(run, prop, E)
     note_engine(run, E)
     run.assume("TRXC datagram classes: undecodable octets (bytes.decode raises UnicodeDecodeError), text not starting with 'CMD', canonical "
@@ -221,6 +222,56 @@ def build_threshold_invariant(run, prop, E):
     E.summaries = {}
 
 
+# ------------------------------------------------------------------ the clock thread never raises on any accepted datagram
+
+def build_forward_chain(run, prop, E):
+    """Whatever TxMsg the parser accepted (its burst may be absent or of ANY length up to 444 - parse_burst only cuts longer ones),
+    TxMsg.trans + FakeTRX.handle_data_msg (the work the clock thread does for it at its tick) return normally, under the class
+    invariant (thresholds >= 0, drop counters sane).  send_msg, pick and the FAKE_* getters are used through their contracts."""
+    from contracts.py import radio as R
+    from props.C18 import sim_drop_summary
+    ft = toolkit("fake_trx")
+    dm = toolkit("data_msg")
+    h = raw(ft.FakeTRX, "handle_data_msg")
+    tr = raw(dm.TxMsg, "trans")
+    register_fn(run, h)
+    register_fn(run, tr)
+    E.summaries = dict(R.radio_summaries())
+    del E.summaries["fake_trx.FakeTRX._handle_data_msg_v1"]          # executed for real: it is where a burst-less message hurts
+    E.summaries.update({"data_if.DATAInterface.send_msg": T.send_msg_summary, "fake_trx.FakeTRX.sim_burst_drop": sim_drop_summary})
+    fn, tn, pwr, ver, bl = z3.Int("sm.fn"), z3.Int("sm.tn"), z3.Int("sm.pwr"), z3.Int("sm.ver"), z3.Int("sm.burst.len")
+    thr_ok = z3.And(T.fz("t.", "toa256_rand_threshold") >= 0, T.fz("t.", "rssi_rand_threshold") >= 0, T.fz("t.", "ci_rand_threshold") >= 0)
+
+    def setup(E):
+        t = T.mk_trx(E, "t.")
+        s = T.mk_trx(E, "s.", name="SRC")
+        E.assume(thr_ok)
+        # post-condition of parse_msg (C01/C04): any 32-bit FN, TN 0..7, any attenuation octet, version 0/1, burst absent or 1..444 octets
+        E.assume(z3.And(fn >= 0, fn < (1 << 32), tn >= 0, tn <= 7, pwr >= 0, pwr <= 255, z3.Or(ver == 0, ver == 1), bl >= 1, bl <= 444))
+        sm = SObj(dm.TxMsg, {"fn": SInt(fn), "tn": SInt(tn), "pwr": SInt(pwr), "ver": SInt(ver),
+                             "burst": SOpt(z3.Bool("sm.burst?none"), models.fresh_seq(E, "sm.burst", "bytearray", bl, 0, 255))})
+        return {"t": t, "s": s, "sm": sm}
+
+    def invoke(E, ctx):
+        t = ctx["t"]
+        m = E.call(tr, [ctx["sm"]], {"ver": t.attrs["data_if"].attrs["_hdr_ver"]})
+        E.call(h, [t, ctx["s"], ctx["sm"], m])
+        return None
+    nret = 0
+    for p, ctx, out in run_paths(E, setup, invoke):
+        tag = {"side": "py", "what": "forward_chain"}
+        run.add(*path_obligations(run, prop, h, p, "", tag=tag))
+        if out[0] == "raise":
+            run.add(Obligation(prop, qualname(h), "clock_thread_work_never_raises_on_accepted_datagram", p.pc, z3.BoolVal(False), kind="noexc",
+                               case=out[1].cls.__name__, where=where(h), tag=dict(tag, exc=out[1].cls.__name__)))
+        else:
+            nret += 1
+            run.add(Obligation(prop, qualname(h), "clock_thread_work_never_raises_on_accepted_datagram", p.pc, z3.BoolVal(True), kind="noexc", case="returns", where=where(h), tag=tag))
+    if nret == 0:
+        run.add(Obligation(prop, qualname(h), "some_path_returns", [], z3.BoolVal(False), kind="cover", where=where(h)))
+    E.summaries = {}
+
+
 # ------------------------------------------------------------------ capture reader on arbitrary content
 
 def build_capture_reader(run, prop, E):
@@ -295,6 +346,12 @@ def witness_py(o, model):
     arr = z3.Array("d", I, I)
     t["data"] = [min(255, max(0, mval(model, z3.Select(arr, i)))) for i in range(min(n, 1024))]
     t["hdr_ver"] = mval(model, z3.Int("hdr_ver"))
+    for nme in ("sm.fn", "sm.tn", "sm.pwr", "sm.ver", "sm.burst.len", "t._hdr_ver"):
+        t[nme] = mval(model, z3.Int(nme))
+    for nme in T.INT_FIELDS:
+        t["t." + nme] = mval(model, T.fz("t.", nme))
+    t["sm.burst?none"] = mval(model, z3.Bool("sm.burst?none"))
+    t["t.rf_muted"] = mval(model, z3.Bool("t.rf_muted"))
     return t
 
 
@@ -335,6 +392,22 @@ def replay_py(payload):
         except Exception as e:
             return {"confirmed": True, "observed": "status %r for %s %s, then handle_data_msg raises %s: %s" % (rc, f["verb"], " ".join(args), type(e).__name__, e),
                     "expected": "command rejected or subsequent bursts served"}
+    if what == "forward_chain":
+        t, s = native_trx("T", 5700), native_trx("S", 6700)
+        for nme in T.INT_FIELDS:
+            if "t." + nme in f:
+                setattr(t, nme, f["t." + nme])
+        t.data_if._hdr_ver = f.get("t._hdr_ver", 1)
+        t.rf_muted = bool(f.get("t.rf_muted", False))
+        sm = dm.TxMsg(fn=f.get("sm.fn", 0), tn=f.get("sm.tn", 0), ver=f.get("sm.ver", 0))
+        sm.pwr = f.get("sm.pwr", 0)
+        sm.burst = None if f.get("sm.burst?none") else bytearray(max(1, min(444, f.get("sm.burst.len", 148))))
+        try:
+            t.handle_data_msg(s, sm, sm.trans(ver=t.data_if._hdr_ver))
+            return {"confirmed": False, "observed": "returns", "expected": "returns"}
+        except Exception as e:
+            return {"confirmed": True, "observed": "raises %s: %s" % (type(e).__name__, e), "expected": "returns normally",
+                    "message": "TxMsg ver=%s burst=%s" % (sm.ver, "None" if sm.burst is None else len(sm.burst))}
     if what in ("recv_rx_msg", "recv_tx_msg", "recv_data_msg"):
         t = native_trx()
         t.data_if._hdr_ver = f.get("hdr_ver", 0)
